@@ -11,6 +11,9 @@ import json
 import os
 import sys
 import traceback
+import warnings
+
+warnings.simplefilter("ignore")
 
 HERE = os.path.dirname(os.path.abspath(__file__))
 sys.path.insert(0, HERE)
